@@ -86,6 +86,24 @@ CHECKS = {
         note="Published keys pinned as specification data; 'refuses' = any exception.",
         design="5/C09",
     ),
+    "C11": dict(
+        technique="history monitor: operation sequences executed on the real Bf3File/Bec2File objects and on a sequential model in lock-step, compared after every operation (independent TLV decoder and identifier model)",
+        text="All operation sequences up to length 4 (quick) / 5 (thorough) over a reduced 10-letter alphabet (set_config of two configurations, derive comments, derive auth blocks in both modes, append/insert components with and without TYPE tag, write+read back, foreign comment edit) plus random sequences of length 5..25 over the full 43-letter alphabet are run; after each operation the number/position/content of the configuration component, all other components, the derived and foreign comments and the auth-block map are compared with the model.",
+        note="Bounded histories; 'configuration last' is demanded right after set_config; RequiresBusAddress with an all-zero value is not judged.",
+        design="5/C11",
+    ),
+    "C13": dict(
+        technique="reference-model monitor: grammar-generated BF2 texts with ground truth (image cut into data lines); payload compared with the image / raw lines / extents, tags with pinned specification data, filter comment by evaluating the rendered expression against the filter bytes",
+        text="BF2 files over every mapped tag type, ignored sections, images up to 200 KB with line sizes 1..250 and page crossings, release/debug firmware comments, CRC/REBOOT/version descriptors, multi-group filters are imported; every component payload must equal the generator's image (blob) or concatenated raw lines (BF2-compatible); extents go through bf2_unpack_payload/bf2_convert_payload directly (memory image). Gaps at first/middle/last line, overlaps, non-zero start, unknown/unmapped tag types and a missing BF3 marker must be rejected.",
+        note="Tag rules are pinned specification data (detects change, cannot judge); payload oracle is independent; sections restate their instructions.",
+        design="5/C13",
+    ),
+    "C14": dict(
+        technique="exception-type monitor + logical step budget (sys.monitoring PY_START/JUMP/BRANCH counter) + global-state snapshot and fixed-reference-input re-check, over exhaustive single-character mutations/prefixes, near-valid deep-path files and random text",
+        text="Every parsing entry point (BF3 reader stream/path/MAC off, BEC2 reader with 7 decryptor sets, BF2 importer in both modes, identifier parser, filter formatter) is driven with all prefixes and all single-character deletions/replacements of valid files, line swaps/duplications, token insertions, multi-mutations, 30 classes of near-valid files with MACs and frames recomputed, and random text/hex (~2.6e5 calls quick). Any exception other than FormatError/ValueError subclasses, exceeding the step budget, a changed global snapshot or a changed result for fixed reference inputs is a violation.",
+        note="'never hangs' is decided by a logical step budget (3e6 + 3e4 x input length), not wall-clock; wall-clock watchdog yields inconclusive only.",
+        design="5/C14",
+    ),
 }
 
 NOT_YET = "check not built yet in this session (see DESIGN.md section 5 for the planned monitor)"
